@@ -8,6 +8,7 @@
 
 use crate::{source::DirEntry, SharedString};
 
+#[cfg(not(kani))]
 #[allow(unused_imports)]
 use std::{
     any::TypeId,
@@ -17,6 +18,18 @@ use std::{
     ops::{Deref, DerefMut},
     path::{Path, PathBuf},
 };
+#[cfg(kani)]
+#[allow(unused_imports)]
+use std::{
+    any::TypeId,
+    borrow::Borrow,
+    fmt, hash,
+    ops::{Deref, DerefMut},
+    path::{Path, PathBuf},
+};
+#[cfg(kani)]
+#[allow(unused_imports)]
+use self::model_collections::{HashMap as StdHashMap, HashSet as StdHashSet};
 
 pub fn path_of_entry(root: &Path, entry: DirEntry) -> PathBuf {
     let (id, ext) = match entry {
@@ -449,3 +462,6 @@ where
         self.0.fmt(f)
     }
 }
+
+#[cfg(kani)]
+include!(concat!(env!("ASSETS_MANAGER_VERIF"), "/incrate/utils_private.rs"));
